@@ -44,7 +44,6 @@ _MAX_SBML_INT = 2**31 - 1
 
 UNARY = {
     "sqrt": libsbml.AST_FUNCTION_ROOT,
-    "remainder": libsbml.AST_FUNCTION_REM,
     "abs": libsbml.AST_FUNCTION_ABS,
     "exp": libsbml.AST_FUNCTION_EXP,
     "ceil": libsbml.AST_FUNCTION_CEILING,
@@ -187,31 +186,52 @@ def _convert_ifexp(node: ast.IfExp) -> libsbml.ASTNode:
     return sbml_node
 
 
-def _convert_unary_call(typ: int, arg: ast.expr) -> libsbml.ASTNode:
-    sbml_node = libsbml.ASTNode(typ)
-    if typ == libsbml.AST_FUNCTION_LOG:
-        # MathML log takes its base as first child
-        base = libsbml.ASTNode(libsbml.AST_INTEGER)
-        base.setValue(10)
-        sbml_node.addChild(base)
-    sbml_node.addChild(_convert_node(arg))
+def _convert_table_call(name: str, node: ast.Call) -> libsbml.ASTNode | None:
+    """Convert a call of one of the functions in the UNARY / BINARY / NARY tables."""
+    if name not in UNARY and name not in BINARY and name not in NARY:
+        return None
+    if node.keywords:
+        msg = f"Keyword arguments of {name} cannot be exported to SBML"
+        raise NotImplementedError(msg)
+
+    n_args = len(node.args)
+    if (typ := UNARY.get(name)) is not None:
+        sbml_node = libsbml.ASTNode(typ)
+        if name == "log" and n_args == 2:
+            # log(x, base): MathML log takes its base as first child
+            sbml_node = libsbml.ASTNode(libsbml.AST_FUNCTION_LOG)
+            sbml_node.addChild(_convert_node(node.args[1]))
+            sbml_node.addChild(_convert_node(node.args[0]))
+            return sbml_node
+        if n_args != 1:
+            msg = f"{name} with {n_args} arguments cannot be exported to SBML"
+            raise NotImplementedError(msg)
+        if typ == libsbml.AST_FUNCTION_LOG:
+            # log10
+            base = libsbml.ASTNode(libsbml.AST_INTEGER)
+            base.setValue(10)
+            sbml_node.addChild(base)
+        sbml_node.addChild(_convert_node(node.args[0]))
+        return sbml_node
+    if (typ := BINARY.get(name)) is not None:
+        if n_args != 2:  # noqa: PLR2004
+            msg = f"{name} with {n_args} arguments cannot be exported to SBML"
+            raise NotImplementedError(msg)
+        sbml_node = libsbml.ASTNode(typ)
+        sbml_node.addChild(_convert_node(node.args[0]))
+        sbml_node.addChild(_convert_node(node.args[1]))
+        return sbml_node
+
+    sbml_node = libsbml.ASTNode(NARY[name])
+    for arg in node.args:
+        sbml_node.addChild(_convert_node(arg))
     return sbml_node
 
 
 def _convert_direct_call(node: ast.Call) -> libsbml.ASTNode:
     func = cast(ast.Name, node.func).id
 
-    if (typ := UNARY.get(func)) is not None:
-        return _convert_unary_call(typ, node.args[0])
-    if (typ := BINARY.get(func)) is not None:
-        sbml_node = libsbml.ASTNode(typ)
-        sbml_node.addChild(_convert_node(node.args[0]))
-        sbml_node.addChild(_convert_node(node.args[1]))
-        return sbml_node
-    if (typ := NARY.get(func)) is not None:
-        sbml_node = libsbml.ASTNode(typ)
-        for arg in node.args:
-            sbml_node.addChild(_convert_node(arg))
+    if (sbml_node := _convert_table_call(func, node)) is not None:
         return sbml_node
 
     msg = f"Function {func} cannot be exported to SBML"
@@ -223,19 +243,11 @@ def _convert_library_call(node: ast.Call) -> libsbml.ASTNode:
     parent = cast(ast.Name, func.value).id
     attr = func.attr
 
-    if parent in ("math", "np", "numpy"):
-        if (typ := UNARY.get(attr)) is not None:
-            return _convert_unary_call(typ, node.args[0])
-        if (typ := BINARY.get(attr)) is not None:
-            sbml_node = libsbml.ASTNode(typ)
-            sbml_node.addChild(_convert_node(node.args[0]))
-            sbml_node.addChild(_convert_node(node.args[1]))
-            return sbml_node
-        if (typ := NARY.get(attr)) is not None:
-            sbml_node = libsbml.ASTNode(typ)
-            for arg in node.args:
-                sbml_node.addChild(_convert_node(arg))
-            return sbml_node
+    if (
+        parent in ("math", "np", "numpy")
+        and (sbml_node := _convert_table_call(attr, node)) is not None
+    ):
+        return sbml_node
 
     msg = f"Function {parent}.{attr} cannot be exported to SBML"
     raise NotImplementedError(msg)
